@@ -1130,6 +1130,7 @@ func depCheckpoint(r *engine.Run, rule string) {
 		return
 	}
 	// onlyCheckpoint: v is computed from constants and loads below t.oldRoot
+	helperBad, helperWeight := "", ""
 	var onlyCk func(v ssa.Value, depth int) (bool, string)
 	onlyCk = func(v ssa.Value, depth int) (bool, string) {
 		if depth > 8 {
@@ -1167,11 +1168,46 @@ func depCheckpoint(r *engine.Run, rule string) {
 				}
 				return true, ""
 			}
+			// a predicate of the trie that exists only for Rollback and itself looks at the checkpoint only
+			if g := x.Call.StaticCallee(); g != nil && g != f && inGroup(opGroup(r, f), g) && len(x.Call.Args) == 1 && x.Call.Args[0] == ssa.Value(f.Params[0]) {
+				for _, ret := range engine.Returns(g) {
+					for _, res := range ret.Results {
+						if ok, why := onlyCk(res, depth+1); !ok {
+							return false, "helper " + g.Name() + ": " + why
+						}
+					}
+				}
+				engine.Instrs(g, func(in ssa.Instruction) {
+					if iff, ok := in.(*ssa.If); ok {
+						if ok, _ := onlyCk(iff.Cond, depth+1); !ok {
+							helperBad = "helper " + g.Name() + " decides by something other than the checkpoint"
+						}
+						if weightTest(iff.Cond) {
+							helperWeight = r.P.Pos(iff.Cond.Pos())
+						}
+					}
+					if b, ok := in.(*ssa.BinOp); ok && weightTest(b) {
+						helperWeight = r.P.Pos(b.Pos())
+					}
+				})
+				if helperBad != "" {
+					return false, helperBad
+				}
+				return true, ""
+			}
 			return false, "calls " + engine.CalleeName(x)
 		case *ssa.ChangeType:
 			return onlyCk(x.X, depth+1)
 		case *ssa.Convert:
 			return onlyCk(x.X, depth+1)
+		case *ssa.Phi:
+			// a || b, a && b: every joined value, and the conditions that select between them
+			for _, e := range x.Edges {
+				if ok, why := onlyCk(e, depth+1); !ok {
+					return false, why
+				}
+			}
+			return true, ""
 		}
 		return false, fmt.Sprintf("%T", v)
 	}
@@ -1210,6 +1246,9 @@ func depCheckpoint(r *engine.Run, rule string) {
 			}
 			if weightTest(iff.Cond) {
 				byWeight = r.P.Pos(iff.Cond.Pos())
+			}
+			if helperWeight != "" {
+				byWeight = helperWeight
 			}
 		}
 		// a restored reference is built from the checkpoint's fields
